@@ -24,7 +24,10 @@ pub fn run_case(tier: &str, seed: u64, idx: u64) -> CaseOut {
     let mut rng = Rng::new(mix(&[seed, idx], "c02"));
     watch::set_case_limit(std::time::Duration::from_secs(3000));
     let n_ops = if tier == "quick" { rng.range(100, 180) } else { rng.range(150, 400) } as usize;
-    let params = ExecParams::generate(&mut rng, idx, n_ops);
+    // every 8th execution grows its manifest past one 32 KiB log block; only the crash points
+    // around manifest writes at the block boundary are swept there (the rest is ordinary)
+    let fat = idx % 8 == 7;
+    let params = if fat { ExecParams::fat_manifest(&mut rng) } else { ExecParams::generate(&mut rng, idx, n_ops) };
     let exec = crash::record_execution(&mut rng, &params);
     if let Some(why) = &exec.degenerate {
         out.inconclusive(format!("degenerate execution: {why}"));
@@ -36,8 +39,28 @@ pub fn run_case(tier: &str, seed: u64, idx: u64) -> CaseOut {
     let mut second_level = 0u64;
     let second_level_rate = if tier == "quick" { 0.02 } else { 0.05 };
     // k = number of mutating calls applied before the crash (0..=n)
+    let window: Option<std::collections::BTreeSet<usize>> = if fat {
+        let mut w = std::collections::BTreeSet::new();
+        for i in exec.manifest_block_boundary_writes() {
+            for k in i.saturating_sub(1)..=(i + 3).min(n) {
+                w.insert(k);
+            }
+        }
+        out.add("fat_manifest_boundary_crash_points", w.len() as u64);
+        Some(w)
+    } else {
+        None
+    };
     for k in 0..=n {
         watch::tick();
+        if let Some(w) = &window {
+            if !w.contains(&k) {
+                if k < n {
+                    replayer.step(&exec.journal[k]);
+                }
+                continue;
+            }
+        }
         let phase = if k == 0 { "before-anything".to_string() } else { exec.phase_of(k - 1) };
         let (acked, with) = exec.expected_at(k as u64);
         let cfg = if k == 0 { params.cfg } else { exec.cfg_at(k as u64 - 1) };
